@@ -2,24 +2,38 @@ import Setec.Model.Updater
 /-
 Any number of updaters on one watched secret, created at any moment - also while installs
 are arriving (C15: "several updaters on one secret, updaters created while updates are in
-flight").  The store side is one counter of installs; every updater carries the number of
-installs that preceded its registration (`base`) and its own `Updater.State`, whose `cur`
-counts the installs it has been notified of.
+flight").  The store side is one counter of installs; every updater ever created carries the
+number of installs that preceded its registration (`base`), whether it is (still) on the
+store's notification list for the name (`listed`), and its own `Updater.State`, whose `cur`
+counts the installs since its registration.
 
-* `install`: the store sets the new value and notifies every registered watcher, in one
-  critical section (applyUpdates, store.go) - one atomic step that advances every updater.
-* `register`: lookupWatcher appends the watcher to the name's list under the same lock
-  (watcher.go), before NewUpdater reads the initial bytes.
+* `install`: the store sets the new value and notifies every watcher on the list, in one
+  critical section (applyUpdates, store.go) - one atomic step.  An updater that is not on the
+  list sees the new bytes when it next reads, but gets no notification.
+* `register`: lookupWatcher appends the watcher to the name's list under the store's lock, in
+  one statement (`s.active.w[name] = append(s.active.w[name], w)`, watcher.go), before
+  NewUpdater reads the initial bytes.
 * `upd i e`: one sub-step (`initRead`, `initBuild`, `drain`, `readCur`, `build`) of updater i.
-* `registerLate r` (only with `late = true`, which is not the code): the same registration
-  done after the initial bytes were read at install count `r` - the order the code avoids.
+
+Two orders the code avoids, enabled only with `variant = true`:
+* `registerLate r`: the registration is done after the initial bytes were read (at install
+  count `r`).
+* `registerStale k`: the new list is computed from a copy of the list taken when only `k`
+  watchers were on it (read before the lock was given up for the lookup, written after): the
+  watchers registered in between drop off the list.
 -/
 namespace Setec.Watchers
 open Setec.Updater
 
+structure W where
+  base : Nat
+  listed : Bool
+  st : State
+  deriving DecidableEq, Repr
+
 structure Sys where
   installs : Nat
-  ws : List (Nat × State)
+  ws : List W
   deriving DecidableEq, Repr
 
 inductive Ev
@@ -27,33 +41,46 @@ inductive Ev
   | register
   | upd (i : Nat) (e : Updater.Ev)
   | registerLate (r : Nat)
+  | registerStale (k : Nat)
   deriving DecidableEq, Repr
 
 def init : Sys := { installs := 0, ws := [] }
 
-/-- what an install does to one registered updater: `Updater.step _ .install` -/
+/-- what an install does to a listed updater: `Updater.step _ .install` -/
 def installed (w : State) : State :=
   { w with cur := w.cur + 1, pending := true, sinceDrain := w.sinceDrain + 1 }
 
-def step (late : Bool) (s : Sys) : Ev → Option Sys
-  | .install => some { installs := s.installs + 1, ws := s.ws.map fun p => (p.1, installed p.2) }
-  | .register => some { s with ws := s.ws ++ [(s.installs, Updater.init)] }
+/-- ... and to one that is not on the list: the bytes move on, nobody tells it -/
+def missed (w : State) : State :=
+  { w with cur := w.cur + 1, sinceDrain := w.sinceDrain + 1 }
+
+def step (variant : Bool) (s : Sys) : Ev → Option Sys
+  | .install =>
+    some { installs := s.installs + 1,
+           ws := s.ws.map fun w => { w with st := if w.listed then installed w.st else missed w.st } }
+  | .register => some { s with ws := s.ws ++ [{ base := s.installs, listed := true, st := Updater.init }] }
   | .upd i e =>
     if e = .install then none else
     match s.ws[i]? with
     | none => none
-    | some p =>
-      match Updater.step p.2 e with
+    | some w =>
+      match Updater.step w.st e with
       | none => none
-      | some w' => some { s with ws := s.ws.set i (p.1, w') }
+      | some st' => some { s with ws := s.ws.set i { w with st := st' } }
   | .registerLate r =>
-    if late = true ∧ r ≤ s.installs then
+    if variant = true ∧ r ≤ s.installs then
       -- the initial bytes were read when `r` installs had happened; the watcher exists only now
-      some { s with ws := s.ws ++ [(r, { Updater.init with cur := s.installs - r, phase := .read, input := 0 })] }
+      some { s with ws := s.ws ++ [{ base := r, listed := true,
+                                     st := { Updater.init with cur := s.installs - r, phase := .read, input := 0 } }] }
+    else none
+  | .registerStale k =>
+    if variant = true then
+      some { s with ws := (s.ws.mapIdx fun i w => if i < k then w else { w with listed := false }) ++
+                          [{ base := s.installs, listed := true, st := Updater.init }] }
     else none
 
-def run (late : Bool) (s : Sys) : List Ev → Option Sys
+def run (variant : Bool) (s : Sys) : List Ev → Option Sys
   | [] => some s
-  | e :: es => match step late s e with | some s' => run late s' es | none => none
+  | e :: es => match step variant s e with | some s' => run variant s' es | none => none
 
 end Setec.Watchers
